@@ -38,6 +38,10 @@ const WORK_DIR: &str = "/verif/work/C19";
 /// Watchdog for one child (two reads). Healthy children finish in well under 3 s even for 300 manifests.
 const WATCHDOG_S: u64 = 150;
 const THREAD_STACK: usize = 1 << 20;
+/// Same-length strings present in every Builder-made manifest (assertion data / claim generator name); editing them
+/// in the store bytes changes every manifest box hash, so every recorded ingredient hash becomes stale.
+const STALE_MARKER: &str = "c19-stale-marker-0";
+const GENERATOR_NAME: &str = "verif-harness";
 
 // ------------------------------------------------------------------------------------------------
 // child: read one asset, report outcome + counters as one JSON line
@@ -666,6 +670,9 @@ fn expectation(a: &Analysis) -> Expect {
     } else if a.min_depth > limit {
         // every traversal from the active manifest needs a path with more than `limit` references
         Expect::Reject("over-deep")
+    } else if a.bogus_reachable {
+        // a reachable reference records a hash that is not the target manifest's: ingredient.manifest.mismatch
+        Expect::Reject("stale-hash")
     } else if !a.bogus_reachable && !a.unhashable && !a.update_reachable && !a.multi_parent && a.longest + 2 <= limit {
         Expect::Accept
     } else {
@@ -724,6 +731,7 @@ fn judge_graph(run: &Run, g: &Graph) -> CaseResult {
             "cyclic" => "expect_reject_cyclic",
             "self-referencing" => "expect_reject_self",
             "dangling" => "expect_reject_dangling",
+            "stale-hash" => "expect_reject_stale_hash",
             _ => "expect_reject_overdeep",
         },
         Expect::Accept => "expect_accept",
@@ -817,7 +825,7 @@ fn gen_random(spec: &RandSpec, max_nodes: usize) -> Graph {
     let limit = depth_limit();
     let mut r = |m: usize| (rng.next_u64() % m.max(1) as u64) as usize;
     let size = spec.size as usize;
-    match spec.family % 8 {
+    match spec.family % 10 {
         0 => {
             // linear chain; sizes concentrate on small values and on the band around the limit
             let len = match size % 4 {
@@ -894,7 +902,7 @@ fn gen_random(spec: &RandSpec, max_nodes: usize) -> Graph {
                     g.nodes[u].e.clear();
                 }
             }
-            if spec.family % 8 == 5 {
+            if spec.family % 10 == 5 {
                 g.family = "dag_defect".into();
                 let a = analyse(&g);
                 let reach: Vec<usize> = {
@@ -953,6 +961,39 @@ fn gen_random(spec: &RandSpec, max_nodes: usize) -> Graph {
             }
             Graph { family: "longpath_shortcut".into(), nodes }
         }
+        8 | 9 => {
+            // stale-hash shared DAGs: layers of width w (w = 1: "diamond chain"), every node references the next
+            // layer twice, and the recorded hashes are fillers (all of them, or each with probability 1/2), so
+            // nothing can be short-circuited on "ingredient hash matched": 2^layers paths over a linear store
+            let diamond = spec.family % 10 == 8;
+            let w = if diamond { 1 } else { 1 + r(3) };
+            let layers = if diamond { 8 + size % 23 } else { (8 + size % 140).min((max_nodes - 1) / w).min(limit - 3) };
+            let partial = (size / 7) % 3 == 0;
+            let idx = |l: usize, j: usize| (1 + l * w + j) as u16;
+            let mut s2 = SplitMix64::new(spec.seed ^ 8);
+            let mut nodes = vec![Node::default()];
+            let mk = |targets: [u16; 2], s2: &mut SplitMix64| {
+                let mut e = attr_edges(&targets, s2, false);
+                let mut any = false;
+                for x in e.iter_mut() {
+                    x.bogus = !partial || s2.next_u64() % 2 == 0;
+                    any |= x.bogus;
+                }
+                if !any {
+                    e[0].bogus = true;
+                }
+                e
+            };
+            let first = [idx(0, r(w)), idx(0, r(w))];
+            nodes[0].e = mk(first, &mut s2);
+            for l in 0..layers {
+                for _ in 0..w {
+                    let e = if l + 1 < layers { mk([idx(l + 1, r(w)), idx(l + 1, r(w))], &mut s2) } else { vec![] };
+                    nodes.push(Node { upd: false, e });
+                }
+            }
+            Graph { family: if diamond { "stale_diamond".into() } else { "stale_layered".into() }, nodes }
+        }
         _ => {
             // update manifests whose parentOf references form a cycle (hash-binding search must terminate)
             let n = 1 + size % 6;
@@ -978,8 +1019,8 @@ fn sign_ctx() -> c2pa::Context {
 fn sign_with_ingredients(title: &str, ingredients: &[(&[u8], &str)]) -> Result<Vec<u8>, String> {
     let def = json!({
         "title": title,
-        "claim_generator_info": [{ "name": "verif-harness", "version": "0.1" }],
-        "assertions": [{ "label": "org.verif.note", "data": { "note": title } }]
+        "claim_generator_info": [{ "name": GENERATOR_NAME, "version": "0.1" }],
+        "assertions": [{ "label": "org.verif.note", "data": { "note": title, "marker": STALE_MARKER } }]
     });
     let has_parent = ingredients.iter().any(|(_, r)| *r == "parentOf");
     let r = vh::catch(|| -> c2pa::Result<Vec<u8>> {
@@ -1036,6 +1077,11 @@ enum BCase {
     Dangling { depth: usize, victim: usize, method: u8 },
     /// update manifest on top of a chain of `depth` ancestors
     Update { depth: usize },
+    /// the Shared graph (every level takes the previous one twice), then a same-length string that occurs in every
+    /// manifest is edited in the store bytes (0: assertion data, 1: claim generator name inside the claim), so that
+    /// every recorded ingredient hash is stale; `width` > 1 gives a layered DAG (each level has `width` siblings
+    /// that all take two members of the previous level)
+    StaleShared { depth: usize, second: u8, marker: u8, width: usize },
 }
 
 // ---- minimal JUMBF top-level walker --------------------------------------------------------------
@@ -1171,6 +1217,69 @@ fn judge_builder(run: &Run, c: &BCase) -> CaseResult {
             }
             let out = run_child(&cur, None);
             judge_outcome(run, &format!("Builder shared sub-DAG depth {depth} ({rel2})"), depth + 1, 2 * depth, &Expect::Accept, &out)
+        }
+        BCase::StaleShared { depth, second, marker, width } => {
+            run.count(&format!("A_stale_shared_marker{marker}_w{width}"));
+            run.nontrivial(c);
+            let rel2 = if *second == 2 { "inputTo" } else { "componentOf" };
+            let w = (*width).max(1);
+            let mut level: Vec<Vec<u8>> = vec![];
+            for j in 0..w {
+                level.push(sign_with_ingredients(&format!("T0_{j}"), &[]).map_err(|e| Fail::new("C19:harness-sign-failed", e))?);
+            }
+            for i in 1..=*depth {
+                let mut next = vec![];
+                // the top level is a single manifest
+                let members = if i == *depth { 1 } else { w };
+                for j in 0..members {
+                    let a = &level[j % level.len()];
+                    let b = &level[(j + i) % level.len()];
+                    next.push(
+                        sign_with_ingredients(&format!("T{i}_{j}"), &[(a, "parentOf"), (b, rel2)])
+                            .map_err(|e| Fail::new("C19:harness-sign-failed", format!("stale level {i}: {e}")))?,
+                    );
+                }
+                level = next;
+            }
+            let asset = level.remove(0);
+            let store = sdk::store_of(FMT, &asset).map_err(|e| Fail::new("C19:harness-store-extract", format!("{e:?}")))?;
+            let manifests = store_children(&store).map(|k| k.len()).unwrap_or(0);
+            let (from, to): (&[u8], Vec<u8>) = if *marker == 0 {
+                (STALE_MARKER.as_bytes(), STALE_MARKER.replace("-0", "-1").into_bytes())
+            } else {
+                (GENERATOR_NAME.as_bytes(), GENERATOR_NAME.replace("harness", "harnesz").into_bytes())
+            };
+            let mut edited = store.clone();
+            let mut hits = 0usize;
+            let mut i = 0;
+            while i + from.len() <= edited.len() {
+                if &edited[i..i + from.len()] == from {
+                    edited[i..i + from.len()].copy_from_slice(&to);
+                    hits += 1;
+                    i += from.len();
+                } else {
+                    i += 1;
+                }
+            }
+            if hits < manifests || manifests < depth + 1 {
+                return Err(Fail::new("C19:harness-stale-edit", format!("marker found {hits} times in {manifests} manifests (depth {depth})")));
+            }
+            let new_asset = c2pa::jumbf_io::save_jumbf_to_memory(FMT, &asset, &edited).map_err(|e| Fail::new("C19:harness-embed", format!("{e:?}")))?;
+            let out = run_child(&new_asset, None);
+            if let ChildOutcome::Done { main, .. } = &out {
+                if main.failures.iter().any(|f| f == "ingredient.manifest.mismatch") {
+                    run.count("A_stale_shared_mismatch_reported");
+                }
+            }
+            let e = 2 * manifests.saturating_sub(w);
+            judge_outcome(
+                run,
+                &format!("Builder shared sub-DAG depth {depth} width {w} ({rel2}) with every manifest edited (marker {marker})"),
+                manifests,
+                e.max(2 * depth),
+                &Expect::Reject("stale-hash"),
+                &out,
+            )
         }
         BCase::Fan { k } => {
             run.count("A_fan");
@@ -1347,6 +1456,13 @@ fn main() {
             a_cases.push(BCase::Dangling { depth: d, victim: v, method: m });
         }
     }
+    for d in run.scale(vec![8usize, 16, 30], vec![8, 10, 12, 14, 16, 18, 20, 22, 24, 26, 28, 30, 40, 64]) {
+        a_cases.push(BCase::StaleShared { depth: d, second: 1 + (d % 2) as u8, marker: 0, width: 1 });
+        a_cases.push(BCase::StaleShared { depth: d, second: 2 - (d % 2) as u8, marker: 1, width: 1 });
+    }
+    for (d, w) in run.scale(vec![(12usize, 2usize)], vec![(12, 2), (20, 3), (30, 2), (45, 3)]) {
+        a_cases.push(BCase::StaleShared { depth: d, second: 1, marker: 0, width: w });
+    }
     a_cases.push(BCase::Update { depth: 0 });
     a_cases.push(BCase::Update { depth: 3 });
     run.drive_enum_par("builder_graphs", a_cases, threads, |c| soften(&run, judge_builder(&run, c)));
@@ -1389,7 +1505,7 @@ fn main() {
 
     let max_nodes = 300usize;
     // the case is the concrete graph (replay files hold it verbatim); shrinking acts on (family, size, seed)
-    let strat = (0u8..8, 0u16..2000, any::<u64>()).prop_map(move |(family, size, seed)| {
+    let strat = (0u8..10, 0u16..2000, any::<u64>()).prop_map(move |(family, size, seed)| {
         let cap = if size % 5 == 0 { max_nodes } else { 60 };
         gen_random(&RandSpec { family, size, seed }, cap)
     });
@@ -1403,7 +1519,7 @@ fn main() {
         fixed.push(g_chain(len, run.seed ^ len as u64, len % 2 == 0));
     }
     fixed.push(g_chain(299, run.seed, false));
-    for (family, size) in [(1u8, 298u16), (2, 148), (2, 97), (3, 298), (3, 297), (4, 298), (5, 298), (5, 297), (6, 0), (6, 1), (6, 45), (7, 0), (7, 1), (7, 4)] {
+    for (family, size) in [(1u8, 298u16), (2, 148), (2, 97), (3, 298), (3, 297), (4, 298), (5, 298), (5, 297), (6, 0), (6, 1), (6, 45), (7, 0), (7, 1), (7, 4), (8, 6), (8, 8), (8, 10), (8, 14), (8, 17), (8, 22), (8, 21), (9, 140), (9, 91), (9, 21)] {
         fixed.push(gen_random(&RandSpec { family, size, seed: run.seed ^ ((family as u64) << 32) ^ size as u64 }, max_nodes));
     }
     run.drive_enum_par("crafted_fixed_large", fixed, threads, |g| soften(&run, judge_graph(&run, g)));
